@@ -68,7 +68,17 @@ def queue_map(ctx, f, g, s_p, num=1) -> Dict[str, str]:
         if ok:
             term, member = tests[0]
             qmap.setdefault(q, set()).add(member)
-            chains.setdefault(term, set()).add(member)
+            # identify the if/elif chain the site belongs to (the outermost If of the chain)
+            top = c
+            node_ = parent(c)
+            while node_ is not None and node_ is not f.node:
+                if isinstance(node_, ast.If):
+                    top = node_
+                    pp = parent(node_)
+                    if not (isinstance(pp, ast.If) and len(pp.orelse) == 1 and pp.orelse[0] is node_):
+                        break
+                node_ = parent(node_)
+            chains.setdefault((term, getattr(top, "lineno", 0), getattr(top, "col_offset", 0), id(top)), set()).add(member)
             # the job enqueued carries the tested priority
             defs = sched.reaching_defs(f, g, c, job)
             jp = None
@@ -84,10 +94,10 @@ def queue_map(ctx, f, g, s_p, num=1) -> Dict[str, str]:
         ctx.ob(num, "K5", "a job is put on a queue under exactly one priority test, and it carries that priority", ok, f, c, detail=d)
     for q, ms in sorted(qmap.items()):
         ctx.ob(num, "K5", f"all enqueue sites agree on the priority served by queue {q}", len(ms) == 1, f, f.node, construct=f"queue {q}", detail=f"priorities: {sorted(ms)}")
-    for term, ms in sorted(chains.items()):
-        ctx.ob(num, "K5", f"the enqueue chain on {term} covers all three priorities (no job is silently dropped)", ms == set(PRIOS), f, f.node, construct=f"chain on {term}",
+    for i_, (ck, ms) in enumerate(sorted(chains.items(), key=lambda kv: kv[0][1:3])):
+        ctx.ob(num, "K5", f"the enqueue chain on {ck[0]} covers all three priorities (no job is silently dropped)", ms == set(PRIOS), f, f.node, construct=f"chain {i_ + 1} on {ck[0]}",
                detail=f"covered: {sorted(ms)}")
-    ctx.ob(num, "K5", "there are three enqueue chains: new work, failed work, resumed work", len(chains) == 3, f, f.node, construct="enqueue chains", detail=f"{sorted(chains)}")
+    ctx.ob(num, "K5", "there are three enqueue chains: new work, failed work, resumed work", len(chains) == 3, f, f.node, construct="enqueue chains", detail=f"{sorted(k[0] for k in chains)}")
     inv = {}
     for q, ms in qmap.items():
         if len(ms) == 1:
